@@ -905,6 +905,7 @@ func (s *session) readDisconnected(oldConn net.Conn, err error) {
 	s.socket.Close()
 	verifGate("disc.redial", s)
 	if !s.redialForClient(oldConn) {
+		verifGate("final.store", s)
 		s.changeStatus(statusPassiveClosed)
 		s.notifyClosed()
 		verifGate("disc.hook", s)
